@@ -7,7 +7,7 @@ META = {
     'technique': 'Lean 4 refinement proof of a hand model of fibre.c against an abstract scheduler specification; the returned wake-up time is an output of the refinement theorem; '
                  'model and specification tied to the real code by differential runs',
     'level_text': "For every in-scope history the value returned by the model's fibre_scheduler_next(T) is w32(V) with V given by the property's formula on the state at return: V = T if the dispatched fibre yielded or the run queue or the accepted atomic requests are non-empty, else the earliest pending due time (proved to be a pending due time, minimal, and after T), else T + 0x7fffffff; V <= D for every pending timeout, T <= V <= T+0x7fffffff and the 32-bit value minus T reads as V - T (never_oversleeps). The property's last sentence is proved about the consumer itself, one iteration of the POSIX main loop posix/fibre_posix.c (Model/MainLoop.lean: the model's pass at clock reading T1, then sleep = min(int32(returned - T2), 50000) if positive, T2 the reading after the pass): for T1 <= T2 <= T1 + 2^31 the loop never sleeps past the returned time, hence past no pending due time, never sleeps when anything is runnable at return, polls at least every 50 ms and does sleep while idle (mainloop_never_delays and its parts; the pinned tree's `< 1000 ? interval : 50000` rule, defect D13, is kept as posixSleepOld with the kernel-checked witness old_mainloop_oversleeps). The interrupt clause (a request completed before the final check makes the pass return T) is theorem Librfn.C06.wakeup_with_isr; this check additionally runs the C06 engine and judges its oversleep verdict.",
-    'level_note': "Trusted: Lean kernel (standard axioms; bv_decide certificates for Librfn.C03.Tie.mainloop_generated and Librfn.C03.TieWake.get_next_wakeup_generated* only); tie T2 for get_next_wakeup (regenerated from fibre.c with the kernel structure as state, messageq_empty external; equal to getNextWakeup of the model under stated representation hypotheses, Props/C03TieWake.lean); tie T2 (DESIGN 12): one iteration of fibre_scheduler_main_loop with cyclecmp32 inlined is regenerated from fibre_posix.c + util.c each run and proved equal to Model.MainLoop.posixSleep for every 32-bit clock reading and returned time (Props/C03Tie.lean); the hand model lean/Librfn/Model/Fibre.lean of fibre.c and the abstract specification are BOTH run against the real fibre.c+list.c+messageq.c+util.c on every check (sampled histories, exhaustive small scope in the thorough tier) - that correspondence is testing, not proof; cyclecmp32 is regenerated from util.c (tie T); list.c is replaced by sequences (its refinement is C09; every insertion is proved to be of a node in no list); the main loop is checked per iteration on a virtual clock (harness-owned time_now/usleep; one capture macro around its call of fibre_scheduler_next) and its window T2 - T1 <= 2^31 us (a pass lasting under 35.8 min) is a hypothesis: beyond it the int32 interval wraps and the real loop sleeps 50 ms with a runnable fibre (theorem window_is_needed, out of scope, not alarmed); the atomic run queue is its list of committed entries, fibre_run_atomic runs to completion (the lock-free protocol is C04/C06); scope = the property's quantifier: <= 1 unsatisfied fibre_timeout per dispatch, non-decreasing true times, every pending due time within 2^31 ticks of the pass time (the 9th outstanding atomic request is refused by model and specification alike, so no clause is needed).",
+    'level_note': "Trusted: Lean kernel (standard axioms; bv_decide certificates for Librfn.C03.Tie.mainloop_generated and Librfn.C03.TieWake.get_next_wakeup_generated* only); tie T2 for get_next_wakeup (regenerated from fibre.c with the kernel structure as state, messageq_empty external; equal to getNextWakeup of the model under stated representation hypotheses, Props/C03TieWake.lean) and for the control skeleton of fibre_scheduler_next (helpers and the dispatched entry point external, assumed not to write kernel.now/state/current; slow-path condition and selection of the returned time as in prelude/schedulerNext of the model, Props/C03TieNext.lean); tie T2 (DESIGN 12): one iteration of fibre_scheduler_main_loop with cyclecmp32 inlined is regenerated from fibre_posix.c + util.c each run and proved equal to Model.MainLoop.posixSleep for every 32-bit clock reading and returned time (Props/C03Tie.lean); the hand model lean/Librfn/Model/Fibre.lean of fibre.c and the abstract specification are BOTH run against the real fibre.c+list.c+messageq.c+util.c on every check (sampled histories, exhaustive small scope in the thorough tier) - that correspondence is testing, not proof; cyclecmp32 is regenerated from util.c (tie T); list.c is replaced by sequences (its refinement is C09; every insertion is proved to be of a node in no list); the main loop is checked per iteration on a virtual clock (harness-owned time_now/usleep; one capture macro around its call of fibre_scheduler_next) and its window T2 - T1 <= 2^31 us (a pass lasting under 35.8 min) is a hypothesis: beyond it the int32 interval wraps and the real loop sleeps 50 ms with a runnable fibre (theorem window_is_needed, out of scope, not alarmed); the atomic run queue is its list of committed entries, fibre_run_atomic runs to completion (the lock-free protocol is C04/C06); scope = the property's quantifier: <= 1 unsatisfied fibre_timeout per dispatch, non-decreasing true times, every pending due time within 2^31 ticks of the pass time (the 9th outstanding atomic request is refused by model and specification alike, so no clause is needed).",
     'design_ref': '§6 C03',
 }
 REQUIRED = ['Librfn.C03.wake_formula', 'Librfn.C03.wakeup_spec', 'Librfn.C03.pending_after_return', 'Librfn.C03.never_oversleeps',
@@ -117,7 +117,8 @@ def run(ctx):
         ctx.broken.append(f'tie T: tools/c2lean2.py cannot translate unit {u}: {e}')
     tie_ax = lambda t, a: t.startswith('Librfn.C03.Tie.') and a.startswith('Librfn.C03.Tie.mainloop_generated._native.bv_decide.ax_') or \
         (t == 'Librfn.C03.Tie.mainloop_tie' and a.startswith('Librfn.C03.Tie.mainloop_tie._native.bv_decide.ax_')) or \
-        (t.startswith('Librfn.C03.TieWake.') and '._native.bv_decide.ax_' in a and a.startswith('Librfn.C03.TieWake.get_next_wakeup_generated'))
+        (t.startswith('Librfn.C03.TieWake.') and '._native.bv_decide.ax_' in a and a.startswith('Librfn.C03.TieWake.get_next_wakeup_generated')) or \
+        (t.startswith('Librfn.C03.TieNext.') and '._native.bv_decide.ax_' in a and a.startswith('Librfn.C03.TieNext.scheduler_next_generated'))
     # get_next_wakeup (the value fibre_scheduler_next returns when nothing yielded) regenerated from fibre.c and proved to be the model's
     # getNextWakeup (Props/C03TieWake.lean); a changed interface of the generated definition breaks the tie without building it
     wake_mods, wake_req = ['Librfn.Props.C03TieWake'], ['Librfn.C03.TieWake.get_next_wakeup_generated', 'Librfn.C03.TieWake.get_next_wakeup_generated_mem',
@@ -126,11 +127,18 @@ def run(ctx):
     if changed:
         ctx.broken.append('tie T: the interface of the regenerated get_next_wakeup differs from the one Props/C03TieWake.lean is stated against (' + '; '.join(changed)[:600] + ')')
         wake_mods, wake_req = [], []
+    # the control skeleton of fibre_scheduler_next itself (helpers, messageq_empty and the dispatched entry point external): Props/C03TieNext.lean
+    changed = regen.signature_changes('FibreSeq', only=['fibre_scheduler_next'])
+    if changed:
+        ctx.broken.append('tie T: the interface of the regenerated fibre_scheduler_next differs from the one Props/C03TieNext.lean is stated against (' + '; '.join(changed)[:600] + ')')
+    else:
+        wake_mods = wake_mods + ['Librfn.Props.C03TieNext']
+        wake_req = wake_req + ['Librfn.C03.TieNext.scheduler_next_generated', 'Librfn.C03.TieNext.scheduler_next_tie']
     sc.run_sched(ctx, META, ['Librfn.Props.C03', 'Librfn.Props.C06', 'Librfn.Props.C03Tie'] + wake_mods,
                  REQUIRED + ['Librfn.C06.wakeup_with_isr', 'Librfn.C06.model_refines_monitor', 'Librfn.C03.Tie.mainloop_generated', 'Librfn.C03.Tie.mainloop_tie'] + wake_req,
                  'C03', allow_extra_axioms=tie_ax)
     ctx.cov['tie_T_generated_units'] = {'MainLoopSeq': ['fibre_scheduler_main_loop (one iteration; time_now, fibre_scheduler_next, usleep external)'],
-                                        'FibreSeq': ['get_next_wakeup (messageq_empty external)']}
+                                        'FibreSeq': ['get_next_wakeup (messageq_empty external)', 'fibre_scheduler_next (control skeleton; helpers, messageq_empty and the dispatched entry point external)']}
     if not ctx.violations and 'VERIF_OPT' not in os.environ and 'VERIF_CFG' not in os.environ:
         idle_decision_probe(ctx)
         isr_clause(ctx)          # the extra passes (-O2 / no-atomics builds) repeat the scheduler histories only; C06 owns the interrupt engine
